@@ -788,7 +788,7 @@ fn res_kind(r: &str) -> String {
 
 const MAPS: &[Map] = &[(0, 1000, 65536), (0, 100000, 65536), (1000, 0, 500), (5, 5, 10), (0, 4294901760, 65536), (100, 50, 100), (7, 4000000000, 1)];
 const BAD_MAPS: &[Map] = &[(0, 4294967000, 65536), (4294967000, 0, 65536)];
-const PATHS: &[&str] = &["/a", "/b", "/a/b", "/a/b/c", "/b/a/c", "/d", "/a/../b", "/a/./b", "//a", "/a/", "/c/d", "/a/c", "/"];
+const PATHS: &[&str] = &["/a", "/b", "/a/b", "/a/b/c", "/b/a/c", "/d", "/a/../b", "/a/./b", "//a", "/a/", "/c/d", "/a/c", "/", "/.s", "/a/.s", "/..d", "/.s/a"];
 const ODD_PATHS: &[&str] = &["a", "", "/..", "/a/../..", "./a", "/a//b/", "/.", "/a/../a"];
 
 struct Gen<'r> {
@@ -856,7 +856,7 @@ impl<'r> Gen<'r> {
             7 => hex(b"c"),
             8 => hex(b"d"),
             9 => format!("{}", hex(format!("p{}", self.r.below(300)).as_bytes())),
-            10 => hex(b"..."),
+            10 => hex(*self.r.pick(&[&b"..."[..], b".s", b"..d", b".a"])),
             _ => {
                 let n = self.r.range(1, 6) as usize;
                 let s: Vec<u8> = (0..n).map(|_| b'a' + self.r.below(26) as u8).collect();
